@@ -242,7 +242,7 @@ class ReformInit(_NativeJudge, Contract):
     name = f"{REFORM}.__init__"
     prop = ("C14",)
     top_level = True
-    cases = ("empty-apply", "apply-modifies-variables-and-parameters")
+    cases = ("empty-apply", "apply-modifies-variables-and-parameters", "chained-on-a-reform-that-modified-parameters")
     descr = ("building a reform leaves the baseline untouched: own variables table (a copy), own entity copies bound to the "
              "reform, changes made by apply() stay in the reform")
     inline = (f"{TBS}.__init__", "openfisca_core.entities._core_entity.CoreEntity.set_tax_benefit_system",
@@ -257,6 +257,14 @@ class ReformInit(_NativeJudge, Contract):
         def apply_(ctx, self_):
             marks["applied"] = True
             if case == "empty-apply":
+                return None
+            if case == "chained-on-a-reform-that-modified-parameters":
+                def modifier2(ctx3, params):
+                    rate = params.fields["children"].items[("c", "taxes")].fields["children"].items[("c", "rate")]
+                    rate.fields["values_list"].items.pop()
+                    marks["modifier_got"] = params
+                    return params
+                I.call(ctx, I.getattr(ctx, self_, "modify_parameters"), [Builtin("modifier", modifier2)], {})
                 return None
             # a reform that replaces a variable entry, neutralises another and modifies parameters
             vt = self_.fields["variables"]
@@ -273,7 +281,27 @@ class ReformInit(_NativeJudge, Contract):
             I.call(ctx, I.getattr(ctx, self_, "modify_parameters"), [mod], {})
             return None
         sub = ClassVal("MyReform", None, [rcls], {"apply": Builtin("apply", apply_, {"method": True})})
-        return {"self": Obj(sub, {}, label="reform"), "baseline": w.base, "__w": w, "__snap": snap(reach(w.roots)),
+        baseline = w.base
+        if case == "chained-on-a-reform-that-modified-parameters":
+            # the baseline of the reform under test is itself a reform that owns a modified parameter tree
+            def inner_apply(ctx2, self_):
+                def modifier(ctx3, params):
+                    params.fields["metadata"].items[("c", "inner")] = True
+                    params.fields["metadata"].keyvals[("c", "inner")] = "inner"
+                    return params
+                I.call(ctx2, I.getattr(ctx2, self_, "modify_parameters"), [Builtin("inner-modifier", modifier)], {})
+            inner_cls = ClassVal("InnerReform", None, [rcls], {"apply": Builtin("apply", inner_apply, {"method": True})})
+            saved = I.under_test
+            baseline = Obj(inner_cls, {}, label="inner-reform")
+            init, _ = inner_cls.lookup("__init__")
+            ctx.depth += 1
+            try:
+                I.call(ctx, init, [baseline, w.base], {})
+            finally:
+                ctx.depth -= 1
+            w.inner = baseline
+            w.roots = [w.base, baseline]
+        return {"self": Obj(sub, {}, label="reform"), "baseline": baseline, "__w": w, "__snap": snap(reach(w.roots)),
                 "__marks": marks}
 
     def post(self, I, ctx, a, out, old):
@@ -281,8 +309,17 @@ class ReformInit(_NativeJudge, Contract):
         if out[0] != "return":
             return [("no-exception", False)]
         f = r.fields
-        res = [("baseline-untouched", not changed(a["__snap"])), ("apply-was-run", a["__marks"].get("applied") is True),
-               ("baseline-recorded", f.get("baseline") is w.base)]
+        res = [("baseline-untouched" + ("" if not changed(a["__snap"]) else "[changed: " + ", ".join(map(str, changed(a["__snap"])))[:80] + "]"), not changed(a["__snap"])),
+               ("apply-was-run", a["__marks"].get("applied") is True),
+               ("baseline-recorded", f.get("baseline") is a["baseline"])]
+        if a["baseline"] is not w.base:
+            # chained: the intermediate reform and the root stay as they were; the outer reform owns what it modifies
+            got = a["__marks"].get("modifier_got")
+            inner_params = a["baseline"].fields.get("parameters")
+            res.append(("modifier-works-on-a-copy-of-the-intermediate-tree", got is not None and got is not inner_params and not (
+                {id(o) for o in reach([got])} & {id(o) for o in reach([inner_params]) if isinstance(o, (Obj, DictVal, ListVal))})))
+            res.append(("outer-reform-parameters-are-the-modifier-result", f.get("parameters") is got))
+            return res
         res += entity_binding_checks(w, r)
         rv = f.get("variables")
         res.append(("own-variables-table", isinstance(rv, DictVal) and rv is not w.variables))
